@@ -22,7 +22,7 @@ def snake(s):
 # ------------------------------------------------------------------ APIs
 SHAPES = ["scalars", "enums", "nested", "toplevel_msg", "oneof_toplevel_msg", "deep_toplevel", "repeated_msg", "map_required",
           "msg_no_required", "oneof_msg_no_required", "same_type_twice", "same_type_single_repeated", "same_type_oneof_required",
-          "same_type_two_paths", "dotted_sig", "oneof_scalar", "oneof_msg", "oneof_enum", "repeated_scalar", "repeated_enum",
+          "same_type_two_paths", "dotted_sig", "repeated_all_scalars", "repeated_in_msg", "repeated_bool", "oneof_scalar", "oneof_msg", "oneof_enum", "repeated_scalar", "repeated_enum",
           "resource_ref", "wkt", "bytes", "deep", "optional", "two_oneofs", "required_in_oneof"]
 FORMS = ["unary", "paged", "lro", "server_stream", "client_stream", "bidi", "void"]
 
@@ -103,6 +103,19 @@ def add_shape(api, f, req, shape, n, r):
         bk.field("title", 1, "string", required=True).field("format", 2, "string").field("pages", 3, "int32")
         req.field("book", n, bk.fqn, required=True); n += 1
         req._dotted = getattr(req, "_dotted", []) + ["book.title", "book.format"]
+    elif shape == "repeated_all_scalars":       # a REQUIRED repeated field of every scalar kind
+        for t in ("bool", "bytes", "string", "double", "float", "int32", "int64", "uint32", "uint64", "sint32", "sint64",
+                  "fixed32", "fixed64", "sfixed32", "sfixed64"):
+            req.field(f"{t}_items", n, t, required=True, repeated=True); n += 1
+    elif shape == "repeated_in_msg":            # REQUIRED repeated scalars inside a REQUIRED (top-level typed) message
+        fl = f.message(f"{req.proto.name}Flags")
+        fl.field("switches", 1, "bool", required=True, repeated=True).field("blobs", 2, "bytes", required=True, repeated=True)
+        fl.field("ratios", 3, "double", required=True, repeated=True).field("labels", 4, "string", required=True, repeated=True)
+        req.field("flags", n, fl.fqn, required=True); n += 1
+    elif shape == "repeated_bool":              # REQUIRED repeated bool, top-level and inside a REQUIRED message (no bytes around)
+        tg = f.message(f"{req.proto.name}Toggles"); tg.field("switches", 1, "bool", required=True, repeated=True)
+        req.field("enabled_flags", n, "bool", required=True, repeated=True); n += 1
+        req.field("toggles", n, tg.fqn, required=True); n += 1
     elif shape == "deep":
         a = req.nested("Outer"); b = a.nested("Inner"); c = b.nested("Core")
         c.field("id", 1, "string", required=True)
